@@ -257,3 +257,16 @@ Section Recorder.
     | e :: tl => let s' := step s e in s' :: run_all s' tl
     end.
 End Recorder.
+
+(* the float type is inferred everywhere *)
+Arguments mkInb {F}. Arguments uw {F}. Arguments in_init {F}. Arguments in_first {F}. Arguments in_high {F}.
+Arguments arr_init {F}. Arguments arr_last {F}. Arguments arr_rtp {F}. Arguments arr_transit {F}.
+Arguments i_recv {F}. Arguments i_lost {F}. Arguments i_jit {F}. Arguments i_last {F}. Arguments i_hdr {F}. Arguments i_bytes {F}.
+Arguments mkRem {F}. Arguments o_nack {F}. Arguments o_fir {F}. Arguments o_pli {F}.
+Arguments ri_recv {F}. Arguments ri_lost {F}. Arguments ri_jit {F}. Arguments ri_rtt {F}. Arguments ri_total {F}.
+Arguments ri_frac {F}. Arguments ri_meas {F}. Arguments ro_sent {F}. Arguments ro_bytes {F}. Arguments ro_ts {F}.
+Arguments ro_reports {F}. Arguments ro_rtt {F}. Arguments ro_total {F}. Arguments ro_meas {F}.
+Arguments mkSt {F}. Arguments sa {F}. Arguments sb {F}. Arguments sc {F}. Arguments sd {F}.
+Arguments inb0 {F}. Arguments rem0 {F}. Arguments st0 {F}.
+Arguments rec_in_rtp {F}. Arguments rec_rr1 {F}. Arguments rec_dlrr1 {F}. Arguments rec_xrblock {F}.
+Arguments rec_in_rtcp1 {F}. Arguments step {F}. Arguments run {F}. Arguments run_all {F}.
